@@ -54,6 +54,59 @@ def _inter_calls(net, L1, L2):
     return calls
 
 
+def _coords(n):
+    """Distinct integer coordinates of the ORIGINAL nodes (no two nodes at the same place, none at a pole)."""
+    k = np.arange(n)
+    return ((37 * k + 5) % 61 - 30).astype(float), ((53 * k + 11) % 97 - 48).astype(float)
+
+
+def _attr(n):
+    """Symmetric link lengths fixed by the ORIGINAL node numbers."""
+    i, j = np.indices((n, n))
+    return 1.0 + ((i + j) % 3) + 0.5 * ((i * j) % 2)
+
+
+def _more_calls(net, lat, lon, W, plain_names):
+    """The same network as GeoNetwork on the given coordinates, as ResNetwork with the given link values as
+    resistances (connected undirected graphs), and with the link values as link attribute: every argument-free
+    geographic / resistive query and the link-weighted path family.  Labels carry the object (G. / R. / (w))."""
+    from pyunicorn.core import GeoGrid, GeoNetwork, ResNetwork
+    calls = []
+    A = np.asarray(net.adjacency)
+    n = net.N
+    try:
+        grid = GeoGrid(np.arange(3.0), lat, lon, silence_level=3)
+        gnet = GeoNetwork(grid, adjacency=A.copy(), directed=net.directed, node_weight_type="surface",
+                          silence_level=3)
+        for nm in netcommon.discover(gnet):
+            if nm not in plain_names and "eigenvector" not in nm:
+                calls.append(("G." + nm, getattr(gnet, nm)))
+        calls.append(("G.angular_distance", grid.angular_distance))
+        calls.append(("G.node_weights", lambda: gnet.node_weights))
+    except Exception as ex:
+        calls.append(("G.__init__", lambda ex=ex: (_ for _ in ()).throw(ex)))
+    wnet = net.copy()
+    wnet.set_link_attribute("w", W * A)
+    for nm in ("path_lengths", "closeness", "average_path_length", "global_efficiency", "degree", "indegree",
+               "outdegree", "local_vulnerability"):
+        calls.append((nm + "(w)", lambda nm=nm: getattr(wnet, nm)("w")))
+    calls.append(("link_attribute(w)", lambda: wnet.link_attribute("w")))
+    connected = (not net.directed) and n >= 2 and len(net.graph.connected_components()) == 1
+    if connected:
+        rnet = ResNetwork((W * A).astype(float), silence_level=3)
+        calls.append(("R.effective_resistance", lambda: np.array(
+            [[rnet.effective_resistance(a, b) for b in range(n)] for a in range(n)])))
+        calls.append(("R.effective_resistance_closeness_centrality", lambda: np.array(
+            [rnet.effective_resistance_closeness_centrality(a) for a in range(n)])))
+        calls.append(("R.vertex_current_flow_betweenness", lambda: np.array(
+            [rnet.vertex_current_flow_betweenness(a) for a in range(n)])))
+        for nm in ("edge_current_flow_betweenness", "admittive_degree", "average_neighbors_admittive_degree",
+                   "local_admittive_clustering", "global_admittive_clustering", "average_effective_resistance",
+                   "diameter_effective_resistance", "get_admittance"):
+            calls.append(("R." + nm, getattr(rnet, nm)))
+    return calls
+
+
 def run_case(c):
     net0 = netcommon.build(c)
     names = netcommon.discover(net0)
@@ -66,7 +119,11 @@ def run_case(c):
     rec = dict(c)
     g1 = [v - 1 for v in c["g1"]]
     g2 = [v - 1 for v in c["g2"]]
-    rec["obs0"] = netcommon.observe_all(net0, names, calls=_calls(net0, src, tgt) + _inter_calls(net0, g1, g2))
+    n = net0.N
+    lat, lon = _coords(n)
+    W = _attr(n)
+    rec["obs0"] = netcommon.observe_all(net0, names, calls=_calls(net0, src, tgt) + _inter_calls(net0, g1, g2)
+                                        + _more_calls(net0, lat, lon, W, names))
     net1 = net0.permuted_copy(perm)
     rec["permuted"] = {"A": enc.ints(net1.adjacency), "w": enc.ints(net1.node_weights)}
     # node lists are renumbered with the network and presented in another order
@@ -74,7 +131,8 @@ def run_case(c):
     tgt1 = [inv[j] for j in tgt][::-1]
     # ... and, for the list-indexed measures of InteractingNetworks, in the same order
     rec["obs1"] = netcommon.observe_all(net1, names, calls=_calls(net1, src1, tgt1) +
-                                        _inter_calls(net1, [inv[j] for j in g1], [inv[j] for j in g2]))
+                                        _inter_calls(net1, [inv[j] for j in g1], [inv[j] for j in g2]) +
+                                        _more_calls(net1, lat[perm], lon[perm], W[np.ix_(perm, perm)], names))
     return rec
 
 
